@@ -578,6 +578,23 @@ pub fn quantizer_search_i8_wide() {
     assert!(m.left_cumulative_and_probability(s) == Some((c, p)), "C03: quantised quantile_function disagrees with the encoder view");
 }
 
+/// quick-tier variant of quantizer_search_i8_wide: all probability mass beyond one end of the support
+/// and the inverse hint at the other end (the searches that must cross the whole support with the
+/// exponentially growing step); every quantile.
+#[cfg_attr(kani, kani::proof)]
+#[cfg_attr(kani, kani::unwind(24))]
+pub fn quantizer_search_i8_wide_tails() {
+    let lo: i8 = -100; let hi: i8 = 100;
+    let up: bool = any();
+    let (t, hint) = if up { (1000.0, -200.0) } else { (-1000.0, 200.0) };
+    let m = LeakyQuantizer::<f64, i8, u8, 8>::new(lo..=hi).quantize(StepCdf { t, hint });
+    let q: u8 = any();
+    let (s, c, p) = m.quantile_function(q);
+    assert!(s >= lo && s <= hi, "C10/C03: quantised model decoded a symbol outside its support");
+    assert!(c <= q && (q as u32) < c as u32 + p.get() as u32, "C03: quantile not inside the interval returned by the quantised model");
+    assert!(m.left_cumulative_and_probability(s) == Some((c, p)), "C03: quantised quantile_function disagrees with the encoder view");
+}
+
 /// C19: float table constructors refuse NaN and negative entries whatever normalisation the caller
 /// supplies (3 symbolic f32 entries, symbolic Option<normalization>).
 #[cfg_attr(kani, kani::proof)]
